@@ -4,6 +4,7 @@
   untranslatable.   `lake env lean --run SpecDriver.lean < requests > answers`
 -/
 import YawVerif.Drv.Common
+import YawVerif.Drv.Cont
 
 open Yaw Yaw.Proto Yaw.Drv
 
@@ -88,6 +89,7 @@ def handler (kind : String) : R String :=
   | "cov" => hCov
   | "nz" => hNz
   | "histjk" => hHistJk
+  | "cont" => hCont
   | _ => throw s!"unknown kind {kind}"
 
 end Yaw.SpecDrv
